@@ -1,5 +1,770 @@
+/-
+  SH.Props.C30 — Access control grants exactly the permissions carried by a valid token.
+
+  Property (properties.jsonl): "An access token is accepted only if it is an EdDSA token signed by a configured key
+  whose id it names, issued by vkuth, for a user, and within its validity window (with the 5-second tolerance); only
+  bits prefixed with the application name are granted. A non-admin can view or edit a metric only through a matching
+  metric, prefix or namespace bit or the default bit for unprotected names, needs edit rights on both old and new
+  name to rename, can never view or change remote-config metrics, and can never change weight (except 0->1),
+  presort, sharding, host/sum-square skips or raw-tag attributes."
+  Quantifier: all tokens (valid, tampered, wrong key or algorithm, expired, premature, foreign issuer or app bits)
+  and all bit sets, protected prefixes and metric pairs.
+
+  Every theorem below is for ALL configurations, clocks, tokens, bit lists, protected-prefix lists, names and metric
+  descriptions of the model `SH.Model.Access` (which `bin/check C30` ties to /repo by differential correspondence).
+
+    accept_iff, accept_window, tampered_rejected, parse_ok_only_if      acceptance
+    grant_traced, grants_only_app_bits, grants_nothing, admin_traced    only the application's bits are granted
+    view_rule, view_only_through_bit, remote_config_view                 view
+    canChange_iff, change_needs_both, edit_needs_both,
+    edit_only_through_bits, remote_config_edit                           edit / rename
+    frozen_fields, fieldCheck_ok_iff, edit_ok_iff                        attributes a non-admin cannot change
+    c30_end_to_end                                                       all of it from the token to the decisions
+
+  PARTIAL with respect to the real system (not with respect to the model): Ed25519 and golang-jwt's base64 / JSON
+  decoding are not modelled. `Token.sigOk` (under which configured keys the signature verifies) and the decoded
+  header / claims are inputs; "signed by a configured key whose id it names" is therefore proved in the form
+  "the key id it names is configured and the signature verifies under that key".
+  Full statement that is NOT proved here (would need a model of Ed25519 + JSON):
+    -- theorem accept_only_signed : accepts tokenBytes → ∃ k ∈ configured, kid tokenBytes = id k ∧
+    --     Ed25519.verify k.pub (signingInput tokenBytes) (signature tokenBytes)
+
+  Observation outside the property: a correctly signed token without `exp` makes Claims.Valid dereference nil
+  (`Verdict.panic`); it is not accepted, so the property is unaffected.
+-/
 import SH.Model.Access
 namespace SH.Props.C30
-open SH.Access
-theorem gen_window : window = 5000 := by decide
+open SH.Access SH.Gen
+
+theorem gen_window : C30.timeWindowMs = 5000 := by decide
+theorem gen_issuer : C30.issuer = lit "vkuth" := by decide
+theorem gen_kind : C30.kindToken = lit "token" ∧ C30.kindHeaderName = "kind" ∧ C30.kidHeaderName = "kid" := by decide
+theorem gen_alg : C30.algEdDSA = lit "EdDSA" ∧ algKnown C30.algEdDSA = true := by decide
+theorem gen_remote : C30.remoteConfig = [lit "statshouse_agent_remote_config", lit "statshouse_aggregator_remote_config",
+    lit "statshouse_api_remote_config", lit "statshouse_journal_dump"] := by decide
+theorem gen_err_bits : C30.errMalformed = 1 ∧ C30.errUnverifiable = 2 ∧ C30.errSignatureInvalid = 4 ∧ C30.errExpired = 16 ∧
+    C30.errIssuedAt = 32 ∧ C30.errNotValidYet = 128 ∧ C30.errClaimsInvalid = 512 := by decide
+
+/-- the property's acceptance condition -/
+def Valid (cfg : Cfg) (now : Nat) (t : Token) : Prop :=
+  t.alg = .str C30.algEdDSA ∧ t.kind = .str C30.kindToken ∧
+  (∃ k, t.kid = .str k ∧ k ∈ cfg.keys ∧ k ∈ t.sigOk) ∧
+  t.iss = C30.issuer ∧ t.user ≠ [] ∧
+  (∃ e, t.exp = some e ∧ now < truncSec e + C30.timeWindowMs) ∧
+  (∃ i, t.iat = some i ∧ truncSec i ≤ now + C30.timeWindowMs) ∧
+  (∀ n, t.nbf = some n → truncSec n ≤ now)
+
+theorem algCheck_none (a : HV) : algCheck a = none ↔ a = .str C30.algEdDSA := by
+  cases a with
+  | absent => simp [algCheck]
+  | other => simp [algCheck]
+  | str s =>
+    simp only [algCheck, algAllowed]
+    by_cases hk : algKnown s = true
+    · by_cases ha : (s == C30.algEdDSA) = true
+      · simp [hk, ha]; simpa using ha
+      · simp [hk, ha]; intro h; simp [h] at ha
+    · simp [hk]; intro h; rw [h] at hk; exact hk (by decide)
+
+theorem kindOk_iff (a : HV) : kindOk a = true ↔ a = .str C30.kindToken := by
+  cases a <;> simp [kindOk]
+
+theorem kidKey_some (cfg : Cfg) (a : HV) (k : Str) : kidKey cfg a = some k ↔ a = .str k ∧ k ∈ cfg.keys := by
+  cases a with
+  | absent => simp [kidKey]
+  | other => simp [kidKey]
+  | str s =>
+    simp only [kidKey, List.contains_iff_mem]
+    constructor
+    · intro h
+      split at h
+      · next hm => simp at h; subst h; exact ⟨rfl, hm⟩
+      · simp at h
+    · intro ⟨e, hm⟩
+      simp at e; subst e; simp [hm]
+
+theorem claimsMask_zero (now exp : Nat) (t : Token) :
+    claimsMask now exp t = 0 ↔ expOk now exp = true ∧ iatOk now t.iat = true ∧ nbfOk now t.nbf = true ∧ issOk t = true ∧ userOk t = true := by
+  unfold claimsMask
+  have h1 : C30.errExpired ≠ 0 := by decide
+  have h2 : C30.errIssuedAt ≠ 0 := by decide
+  have h3 : C30.errNotValidYet ≠ 0 := by decide
+  have h4 : C30.errClaimsInvalid ≠ 0 := by decide
+  by_cases a : expOk now exp = true <;> by_cases b : iatOk now t.iat = true <;> by_cases c : nbfOk now t.nbf = true <;>
+    by_cases d : issOk t = true <;> by_cases e : userOk t = true <;> simp [a, b, c, d, e, h1, h2, h3, h4]
+
+
+theorem claimsVerdict_accept (now : Nat) (t : Token) :
+    claimsVerdict now t = .accept ↔
+      ∃ e, t.exp = some e ∧ expOk now e = true ∧ iatOk now t.iat = true ∧ nbfOk now t.nbf = true ∧ issOk t = true ∧ userOk t = true := by
+  unfold claimsVerdict
+  cases he : t.exp with
+  | none => simp
+  | some e =>
+    simp only [Option.some.injEq, exists_eq_left']
+    by_cases h : claimsMask now e t = 0
+    · simp only [h, if_true, true_iff]; exact (claimsMask_zero now e t).mp h
+    · simp only [h, if_false, reduceCtorEq, false_iff]
+      exact fun hh => h ((claimsMask_zero now e t).mpr hh)
+
+theorem expOk_iff (now e : Nat) : expOk now e = true ↔ now < truncSec e + C30.timeWindowMs := decide_eq_true_iff
+
+theorem iatOk_iff (now : Nat) (o : Option Nat) : iatOk now o = true ↔ ∃ i, o = some i ∧ truncSec i ≤ now + C30.timeWindowMs := by
+  cases o with
+  | none => simp [iatOk]
+  | some v =>
+    have : iatOk now (some v) = true ↔ truncSec v ≤ now + C30.timeWindowMs := decide_eq_true_iff
+    simp [this]
+
+theorem nbfOk_iff (now : Nat) (o : Option Nat) : nbfOk now o = true ↔ ∀ n, o = some n → truncSec n ≤ now := by
+  cases o with
+  | none => simp [nbfOk]
+  | some v =>
+    have : nbfOk now (some v) = true ↔ truncSec v ≤ now := decide_eq_true_iff
+    simp [this]
+
+theorem sigVerdict_accept (now : Nat) (t : Token) (k : Str) :
+    sigVerdict now t k = .accept ↔ k ∈ t.sigOk ∧ claimsVerdict now t = .accept := by
+  unfold sigVerdict
+  by_cases hs : t.sigOk.contains k = true
+  · have : k ∈ t.sigOk := by simpa using hs
+    simp [this]
+  · have : ¬ k ∈ t.sigOk := by simpa using hs
+    simp [this]
+
+theorem keyVerdict_accept (cfg : Cfg) (now : Nat) (t : Token) :
+    keyVerdict cfg now t = .accept ↔
+      kindOk t.kind = true ∧ ∃ k, kidKey cfg t.kid = some k ∧ k ∈ t.sigOk ∧ claimsVerdict now t = .accept := by
+  unfold keyVerdict
+  by_cases hk : kindOk t.kind = true
+  · simp only [hk, if_true, true_and]
+    cases hkid : kidKey cfg t.kid with
+    | none => simp
+    | some k => simp [sigVerdict_accept]
+  · simp [hk]
+
+theorem verify_accept (cfg : Cfg) (now : Nat) (t : Token) :
+    verify cfg now t = .accept ↔ algCheck t.alg = none ∧ keyVerdict cfg now t = .accept := by
+  unfold verify
+  cases algCheck t.alg <;> simp
+
+/-- **Acceptance, exact.** A decoded token is accepted iff it is an EdDSA token of kind "token" whose kid names a
+    configured key under which its signature verifies, issued by vkuth, for a non-empty user, with
+    now − 5 s < exp, iat ≤ now + 5 s and (if present) nbf ≤ now. -/
+theorem accept_iff (cfg : Cfg) (now : Nat) (t : Token) : verify cfg now t = .accept ↔ Valid cfg now t := by
+  rw [verify_accept, keyVerdict_accept, algCheck_none, kindOk_iff, claimsVerdict_accept]
+  simp only [kidKey_some, iatOk_iff, nbfOk_iff, Valid]
+  constructor
+  · rintro ⟨ha, hk, k, ⟨h1, h2⟩, hs, e, he, h3, h4, h5, h6, h7⟩
+    exact ⟨ha, hk, ⟨k, h1, h2, hs⟩, by simpa [issOk] using h6, by simpa [userOk] using h7,
+      ⟨e, he, (expOk_iff _ _).mp h3⟩, h4, h5⟩
+  · rintro ⟨ha, hk, ⟨k, h1, h2, hs⟩, h6, h7, ⟨e, he, h3⟩, h4, h5⟩
+    exact ⟨ha, hk, k, ⟨h1, h2⟩, hs, e, he, (expOk_iff _ _).mpr h3, h4, h5, by simpa [issOk] using h6,
+      by simpa [userOk] using h7⟩
+
+
+/-! ## bits -/
+
+theorem isPrefixOf_iff (p b : Str) : p.isPrefixOf b = true ↔ b = p ++ b.drop p.length := by
+  rw [List.isPrefixOf_iff_prefix, List.prefix_iff_eq_append]; exact eq_comm
+
+theorem isPrefixOf_append (p s : Str) : p.isPrefixOf (p ++ s) = true := by
+  rw [List.isPrefixOf_iff_prefix]; exact List.prefix_append p s
+
+theorem stripFullBit_eq (app b s : Str) (hs : s ≠ []) : stripFullBit app b = s ↔ b = appPrefix app ++ s := by
+  unfold stripFullBit
+  constructor
+  · intro h
+    split at h
+    · next hp => rw [← h]; exact (isPrefixOf_iff _ _).mp hp
+    · exact absurd h.symm hs
+  · intro h
+    subst h
+    simp [isPrefixOf_append]
+
+theorem mem_appBits (app : Str) (bits : List Str) (s : Str) :
+    s ∈ appBits app bits ↔ s ≠ [] ∧ appPrefix app ++ s ∈ bits := by
+  unfold appBits
+  simp only [List.mem_filter, List.mem_map, Bool.not_eq_eq_eq_not, Bool.not_true, List.isEmpty_eq_false_iff]
+  constructor
+  · rintro ⟨⟨b, hb, he⟩, hs⟩
+    exact ⟨hs, by rw [← (stripFullBit_eq app b s hs).mp he]; exact hb⟩
+  · rintro ⟨hs, hb⟩
+    exact ⟨⟨_, hb, (stripFullBit_eq app _ s hs).mpr rfl⟩, hs⟩
+
+/-- what it means that an accessInfo carries grant `g` -/
+def Granted (ai : AI) : Grant → Prop
+  | .admin => ai.admin = true
+  | .developer => ai.developer = true
+  | .viewDefault => ai.viewDefault = true
+  | .editDefault => ai.editDefault = true
+  | .viewPrefix p => p ∈ ai.viewPrefix
+  | .editPrefix p => p ∈ ai.editPrefix
+  | .viewMetric m => m ∈ ai.viewMetric
+  | .editMetric m => m ∈ ai.editMetric
+  | .nothing => False
+
+theorem granted_applyGrant (ai : AI) (g g' : Grant) :
+    Granted (applyGrant ai g') g ↔ Granted ai g ∨ (g = g' ∧ g ≠ .nothing) := by
+  cases g <;> cases g' <;> simp [Granted, applyGrant, or_comm]
+
+theorem granted_applyBits (bs : List Str) : ∀ (ai : AI) (g : Grant),
+    Granted (applyBits ai bs) g ↔ Granted ai g ∨ (g ≠ .nothing ∧ ∃ b ∈ bs, classify b = g) := by
+  induction bs with
+  | nil => intro ai g; simp [applyBits]
+  | cons b bs ih =>
+    intro ai g
+    have : applyBits ai (b :: bs) = applyBits (applyGrant ai (classify b)) bs := by simp [applyBits]
+    rw [this, ih, granted_applyGrant]
+    simp only [List.mem_cons, exists_eq_or_imp]
+    constructor
+    · rintro ((h | ⟨h1, h2⟩) | ⟨h1, h2⟩)
+      · exact .inl h
+      · exact .inr ⟨h2, .inl h1.symm⟩
+      · exact .inr ⟨h1, .inr h2⟩
+    · rintro (h | ⟨h1, h2 | h2⟩)
+      · exact .inl (.inl h)
+      · exact .inl (.inr ⟨h2.symm, h1⟩)
+      · exact .inr ⟨h1, h2⟩
+
+theorem granted_empty (u : Str) (sv : Bool) (p : List Str) (g : Grant) : ¬ Granted (emptyAI u sv p) g := by
+  cases g <;> simp [Granted, emptyAI]
+
+theorem classify_nil : classify [] = .nothing := by decide
+
+/-- **Only bits prefixed with the application name are granted.** Every flag, prefix or metric the accessInfo of an
+    accepted token carries comes from a bit `app ++ ":" ++ s` of the token whose remainder `s` the switch maps to
+    exactly that grant — and every such bit is honoured. -/
+theorem grant_traced (cfg : Cfg) (t : Token) (g : Grant) :
+    Granted (grants cfg t) g ↔ g ≠ .nothing ∧ ∃ s, appPrefix cfg.app ++ s ∈ t.bits ∧ classify s = g := by
+  unfold grants
+  rw [granted_applyBits]
+  simp only [granted_empty, false_or, mem_appBits]
+  constructor
+  · rintro ⟨hg, s, ⟨_, hb⟩, hc⟩
+    exact ⟨hg, s, hb, hc⟩
+  · rintro ⟨hg, s, hb, hc⟩
+    refine ⟨hg, s, ⟨?_, hb⟩, hc⟩
+    intro h; subst h; rw [classify_nil] at hc; exact hg hc.symm
+
+
+def hasApp (app b : Str) : Bool := (appPrefix app).isPrefixOf b
+
+theorem appBits_filter (app : Str) (bits : List Str) : appBits app (bits.filter (hasApp app)) = appBits app bits := by
+  induction bits with
+  | nil => rfl
+  | cons b bs ih =>
+    by_cases h : hasApp app b = true
+    · rw [List.filter_cons_of_pos h]
+      unfold appBits at ih ⊢
+      simp only [List.map_cons, List.filter_cons]
+      rw [ih]
+    · rw [List.filter_cons_of_neg h, ih]
+      have hb : stripFullBit app b = [] := by
+        unfold stripFullBit; unfold hasApp at h; simp [h]
+      unfold appBits
+      simp [hb]
+
+/-- **Foreign bits grant nothing**: the accessInfo is a function of the bits that carry the application prefix. -/
+theorem grants_only_app_bits (cfg : Cfg) (t : Token) :
+    grants cfg { t with bits := t.bits.filter (hasApp cfg.app) } = grants cfg t := by
+  unfold grants
+  simp only [appBits_filter]
+
+/-- a token none of whose bits carries the application prefix grants nothing at all -/
+theorem grants_nothing (cfg : Cfg) (t : Token) (h : ∀ b ∈ t.bits, hasApp cfg.app b = false) :
+    grants cfg t = emptyAI t.user t.service cfg.prot := by
+  rw [← grants_only_app_bits]
+  have : t.bits.filter (hasApp cfg.app) = [] := by
+    rw [List.filter_eq_nil_iff]; intro b hb; simp [h b hb]
+  simp [grants, this, appBits, applyBits]
+
+/-- the shape of the bit switch: which remainders `s` produce which grant -/
+inductive BitForm : Str → Grant → Prop
+  | admin : BitForm (lit "admin") .admin
+  | developer : BitForm (lit "developer") .developer
+  | viewDefault : BitForm (lit "view_default") .viewDefault
+  | editDefault : BitForm (lit "edit_default") .editDefault
+  | viewPrefix (x : Str) : BitForm (pViewPrefix ++ x) (.viewPrefix (extractNamespace x))
+  | editPrefix (x : Str) : BitForm (pEditPrefix ++ x) (.editPrefix (extractNamespace x))
+  | viewMetric (x : Str) : BitForm (pViewMetric ++ x) (.viewMetric (extractNamespace x))
+  | editMetric (x : Str) : BitForm (pEditMetric ++ x) (.editMetric (extractNamespace x))
+  | viewNamespace (y : Str) : BitForm (pViewNamespace ++ y) (.viewPrefix (y ++ [colon]))
+  | editNamespace (y : Str) : BitForm (pEditNamespace ++ y) (.editPrefix (y ++ [colon]))
+
+theorem classify_form (s : Str) (g : Grant) (h : classify s = g) (hg : g ≠ .nothing) : BitForm s g := by
+  unfold classify at h
+  repeat' split at h
+  all_goals subst h
+  · next h => rw [h]; exact .admin
+  · next h => rw [h]; exact .developer
+  · next h => rw [h]; exact .viewDefault
+  · next h => rw [h]; exact .editDefault
+  · next h => rw [(isPrefixOf_iff _ _).mp h, List.drop_left]; exact .viewPrefix _
+  · next h => rw [(isPrefixOf_iff _ _).mp h, List.drop_left]; exact .editPrefix _
+  · next h => rw [(isPrefixOf_iff _ _).mp h, List.drop_left]; exact .viewMetric _
+  · next h => rw [(isPrefixOf_iff _ _).mp h, List.drop_left]; exact .editMetric _
+  · next h => rw [(isPrefixOf_iff _ _).mp h, List.drop_left]; exact .viewNamespace _
+  · next h => rw [(isPrefixOf_iff _ _).mp h, List.drop_left]; exact .editNamespace _
+  · exact absurd rfl hg
+
+
+/-! ## policy -/
+
+/-- no protected prefix matches the name -/
+def Unprotected (prot : List Str) (name : Str) : Prop := ∀ p ∈ prot, ¬ p <+: name
+
+theorem hasPrefixAccess_iff (m : List Str) (name : Str) : hasPrefixAccess m name = true ↔ ∃ p ∈ m, p <+: name := by
+  simp [hasPrefixAccess, List.any_eq_true]
+
+theorem protectedMetric_false (ai : AI) (name : Str) : protectedMetric ai name = false ↔ Unprotected ai.prot name := by
+  simp [protectedMetric, Unprotected]
+
+/-- the three ways the property allows a name to be viewed -/
+def ViewRight (ai : AI) (name : Str) : Prop :=
+  name ∈ ai.viewMetric ∨ (∃ p ∈ ai.viewPrefix, p <+: name) ∨ (ai.viewDefault = true ∧ Unprotected ai.prot name)
+
+/-- … and edited -/
+def EditRight (ai : AI) (name : Str) : Prop :=
+  name ∈ ai.editMetric ∨ (∃ p ∈ ai.editPrefix, p <+: name) ∨ (ai.editDefault = true ∧ Unprotected ai.prot name)
+
+theorem viewRight_iff (ai : AI) (name : Str) : viewRight ai name = true ↔ ViewRight ai name := by
+  simp only [viewRight, ViewRight, Bool.or_eq_true, Bool.and_eq_true, Bool.not_eq_eq_eq_not, Bool.not_true,
+    List.contains_iff_mem, hasPrefixAccess_iff, protectedMetric_false, or_assoc]
+
+/-- **View rule.** A name is viewable iff (it is not a remote-config metric, or the caller is admin) and there is a
+    matching metric grant, a prefix/namespace grant, or the default grant on an unprotected name. -/
+theorem view_rule (ai : AI) (name : Str) :
+    canViewName ai name = true ↔ (remoteConfig name = true → ai.admin = true) ∧ ViewRight ai name := by
+  unfold canViewName
+  rw [← viewRight_iff]
+  by_cases hr : remoteConfig name = true <;> by_cases ha : ai.admin = true <;> simp [hr, ha]
+
+/-- **A non-admin can never view remote-config metrics.** -/
+theorem remote_config_view (ai : AI) (name : Str) (ha : ai.admin = false) (hr : remoteConfig name = true) :
+    canViewName ai name = false := by
+  simp [canViewName, ha, hr]
+
+theorem canChange_iff (ai : AI) (c : Bool) (o n : Str) :
+    canChange ai c o n = true ↔
+      ai.admin = true ∨ (remoteConfig o = false ∧ remoteConfig n = false ∧
+        ((o ∈ ai.editMetric ∧ n ∈ ai.editMetric) ∨
+         ((∃ p ∈ ai.editPrefix, p <+: o) ∧ (∃ p ∈ ai.editPrefix, p <+: n)) ∨
+         (ai.editDefault = true ∧ Unprotected ai.prot o ∧ Unprotected ai.prot n))) := by
+  unfold canChange changeRight
+  by_cases ha : ai.admin = true
+  · simp [ha]
+  · by_cases ho : remoteConfig o = true
+    · simp [ha, ho]
+    · by_cases hn : remoteConfig n = true
+      · simp [ha, ho, hn]
+      · simp only [ha, ho, hn, Bool.false_eq_true, if_false, Bool.or_self, false_or, Bool.or_eq_true, Bool.and_eq_true,
+          Bool.not_eq_eq_eq_not, Bool.not_true, List.contains_iff_mem, hasPrefixAccess_iff, protectedMetric_false,
+          true_and, or_assoc, and_assoc]
+
+/-- **Rename needs edit rights on both names; remote-config metrics cannot be changed.** -/
+theorem change_needs_both (ai : AI) (c : Bool) (o n : Str) (ha : ai.admin = false) (h : canChange ai c o n = true) :
+    remoteConfig o = false ∧ remoteConfig n = false ∧ EditRight ai o ∧ EditRight ai n := by
+  rw [canChange_iff] at h
+  rcases h with h | ⟨h1, h2, h3⟩
+  · rw [ha] at h; cases h
+  · refine ⟨h1, h2, ?_⟩
+    rcases h3 with ⟨a, b⟩ | ⟨a, b⟩ | ⟨a, b, c⟩
+    · exact ⟨.inl a, .inl b⟩
+    · exact ⟨.inr (.inl a), .inr (.inl b)⟩
+    · exact ⟨.inr (.inr ⟨a, b⟩), .inr (.inr ⟨a, c⟩)⟩
+
+theorem canEdit_not_forbidden (ai : AI) (c : Bool) (o n : Meta) :
+    canEdit ai c o n ≠ .forbidden → canChange ai c o.name n.name = true := by
+  unfold canEdit
+  by_cases h : canChange ai c o.name n.name = true <;> simp [h]
+
+theorem edit_needs_both (ai : AI) (c : Bool) (o n : Meta) (ha : ai.admin = false) (h : canEdit ai c o n ≠ .forbidden) :
+    remoteConfig o.name = false ∧ remoteConfig n.name = false ∧ EditRight ai o.name ∧ EditRight ai n.name :=
+  change_needs_both ai c _ _ ha (canEdit_not_forbidden ai c o n h)
+
+/-- **A non-admin can never change remote-config metrics.** -/
+theorem remote_config_edit (ai : AI) (c : Bool) (o n : Meta) (ha : ai.admin = false)
+    (hr : remoteConfig o.name = true ∨ remoteConfig n.name = true) : canEdit ai c o n = .forbidden := by
+  refine Classical.byContradiction fun h => ?_
+  obtain ⟨h1, h2, _⟩ := edit_needs_both ai c o n ha h
+  rcases hr with hr | hr
+  · rw [h1] at hr; cases hr
+  · rw [h2] at hr; cases hr
+
+theorem noneRaw_iff : ∀ (a : List Bool), noneRaw a = true ↔ ∀ i, a.getD i false = false := by
+  intro a
+  induction a with
+  | nil => simp [noneRaw]
+  | cons x xs ih =>
+    simp only [noneRaw, Bool.and_eq_true, Bool.not_eq_eq_eq_not, Bool.not_true, ih]
+    constructor
+    · rintro ⟨h1, h2⟩ i
+      cases i with
+      | zero => simp [h1]
+      | succ i => simpa using h2 i
+    · intro h
+      exact ⟨by simpa using h 0, fun i => by simpa using h (i + 1)⟩
+
+theorem rawSame_iff : ∀ (a b : List Bool), rawSame a b = true ↔ ∀ i, a.getD i false = b.getD i false := by
+  intro a
+  induction a with
+  | nil =>
+    intro b
+    simp only [rawSame, noneRaw_iff]
+    constructor
+    · intro h i; simpa using (h i).symm
+    · intro h i; simpa using (h i).symm
+  | cons x xs ih =>
+    intro b
+    cases b with
+    | nil =>
+      have := noneRaw_iff (x :: xs)
+      simp only [noneRaw] at this
+      simp only [rawSame, this]
+      constructor
+      · intro h i; simpa using h i
+      · intro h i; simpa using h i
+    | cons y ys =>
+      simp only [rawSame, Bool.and_eq_true, beq_iff_eq, ih]
+      constructor
+      · rintro ⟨h1, h2⟩ i
+        cases i with
+        | zero => simp [h1]
+        | succ i => simpa using h2 i
+      · intro h
+        exact ⟨by simpa using h 0, fun i => by simpa using h (i + 1)⟩
+
+/-- the attributes a non-admin may not touch are the same in the old and the new description -/
+structure Frozen (o n : Meta) : Prop where
+  weight : n.weightQ = o.weightQ ∨ (o.weightQ = 0 ∧ n.weightQ = 4)
+  preKeyFrom : n.preKeyFrom = o.preKeyFrom
+  preKeyOnly : n.preKeyOnly = o.preKeyOnly
+  skipMaxHost : n.skipMaxHost = o.skipMaxHost
+  skipMinHost : n.skipMinHost = o.skipMinHost
+  skipSumSquare : n.skipSumSquare = o.skipSumSquare
+  strategy : n.strategy = o.strategy
+  shardNum : n.shardNum = o.shardNum
+  fixedKey : n.fixedKey = o.fixedKey
+  fixedKey2 : n.fixedKey2 = o.fixedKey2
+  fixedKey2Ts : n.fixedKey2Ts = o.fixedKey2Ts
+  /-- raw-ness of every tag position (a missing tag is not raw) -/
+  rawTags : ∀ i, o.rawTags.getD i false = n.rawTags.getD i false
+
+theorem fieldCheck_ok_iff (o n : Meta) : fieldCheck o n = .ok ↔ Frozen o n := by
+  unfold fieldCheck
+  constructor
+  · intro h
+    repeat' split at h
+    all_goals first | cases h | skip
+    rename_i h1 h2 h3 h4 h5 h6 h7 h8 h9 h10
+    simp only [weightFrozen, skipsSame, Bool.not_eq_false, bne_iff_ne, ne_eq, Decidable.not_not,
+      Bool.or_eq_true, Bool.and_eq_true, beq_iff_eq, Bool.not_eq_eq_eq_not, Bool.not_true] at *
+    exact ⟨by rcases h1 with h | h; exact .inl h.symm; exact .inr h, h2.symm, h3.symm, h4.1.1.symm, h4.1.2.symm, h4.2.symm,
+      h5.symm, h6.symm, h7.symm, h8.symm, h9.symm, (rawSame_iff _ _).mp h10⟩
+  · intro f
+    have hw : weightFrozen o n = true := by
+      simp only [weightFrozen, Bool.or_eq_true, Bool.and_eq_true, beq_iff_eq]
+      rcases f.weight with h | h
+      · exact .inl h.symm
+      · exact .inr h
+    have hs : skipsSame o n = true := by simp [skipsSame, f.skipMaxHost, f.skipMinHost, f.skipSumSquare]
+    have hr : rawSame o.rawTags n.rawTags = true := (rawSame_iff _ _).mpr f.rawTags
+    simp [hw, hs, hr, f.preKeyFrom, f.preKeyOnly, f.strategy, f.shardNum, f.fixedKey, f.fixedKey2, f.fixedKey2Ts]
+
+/-- **Frozen fields.** If a non-admin edit is accepted then weight is unchanged or goes 0→1, and presort (from, only),
+    the three skips, sharding strategy, shard number, both fixed shards and the fixed-shard timestamp and the
+    raw-ness of every tag are unchanged. -/
+theorem frozen_fields (ai : AI) (c : Bool) (o n : Meta) (ha : ai.admin = false) (h : canEdit ai c o n = .ok) : Frozen o n := by
+  unfold canEdit at h
+  by_cases hc : canChange ai c o.name n.name = true
+  · simp only [hc, Bool.not_true, Bool.false_eq_true, if_false, ha] at h
+    exact (fieldCheck_ok_iff o n).mp h
+  · simp [hc] at h
+
+/-- exact characterisation of an accepted edit -/
+theorem edit_ok_iff (ai : AI) (c : Bool) (o n : Meta) :
+    canEdit ai c o n = .ok ↔ canChange ai c o.name n.name = true ∧ (ai.admin = true ∨ Frozen o n) := by
+  unfold canEdit
+  by_cases hc : canChange ai c o.name n.name = true
+  · by_cases ha : ai.admin = true
+    · simp [hc, ha]
+    · simp [hc, ha, fieldCheck_ok_iff]
+  · simp [hc]
+
+
+/-! ## from the token to the decisions -/
+
+theorem applyGrant_fixed (ai : AI) (g : Grant) :
+    (applyGrant ai g).prot = ai.prot ∧ (applyGrant ai g).user = ai.user ∧ (applyGrant ai g).service = ai.service := by
+  cases g <;> simp [applyGrant]
+
+theorem applyBits_fixed (bs : List Str) : ∀ ai : AI,
+    (applyBits ai bs).prot = ai.prot ∧ (applyBits ai bs).user = ai.user ∧ (applyBits ai bs).service = ai.service := by
+  induction bs with
+  | nil => intro ai; simp [applyBits]
+  | cons b bs ih =>
+    intro ai
+    have : applyBits ai (b :: bs) = applyBits (applyGrant ai (classify b)) bs := by simp [applyBits]
+    rw [this]
+    obtain ⟨h1, h2, h3⟩ := ih (applyGrant ai (classify b))
+    obtain ⟨g1, g2, g3⟩ := applyGrant_fixed ai (classify b)
+    exact ⟨h1.trans g1, h2.trans g2, h3.trans g3⟩
+
+/-- user, service flag and protected prefixes of the accessInfo are the token's / the configuration's -/
+theorem grants_fixed (cfg : Cfg) (t : Token) :
+    (grants cfg t).prot = cfg.prot ∧ (grants cfg t).user = t.user ∧ (grants cfg t).service = t.service := by
+  simpa [grants, emptyAI] using applyBits_fixed (appBits cfg.app t.bits) (emptyAI t.user t.service cfg.prot)
+
+/-- the `admin` flag is set iff the token carries the bit `app:admin` -/
+theorem admin_traced (cfg : Cfg) (t : Token) :
+    (grants cfg t).admin = true ↔ appPrefix cfg.app ++ lit "admin" ∈ t.bits := by
+  have h := grant_traced cfg t .admin
+  simp only [Granted] at h
+  rw [h]
+  constructor
+  · rintro ⟨_, s, hb, hc⟩
+    have hf := classify_form s _ hc (by simp)
+    cases hf
+    exact hb
+  · intro hb
+    exact ⟨by simp, lit "admin", hb, by decide⟩
+
+/-- the remainder `s` of a bit `app:s` that lets `name` be VIEWED -/
+inductive ViewBit (prot : List Str) (name : Str) : Str → Prop
+  | metric (x : Str) : extractNamespace x = name → ViewBit prot name (pViewMetric ++ x)
+  | pref (x : Str) : extractNamespace x <+: name → ViewBit prot name (pViewPrefix ++ x)
+  | namespace (y : Str) : (y ++ [colon]) <+: name → ViewBit prot name (pViewNamespace ++ y)
+  | default : Unprotected prot name → ViewBit prot name (lit "view_default")
+
+/-- the remainder `s` of a bit `app:s` that lets `name` be EDITED -/
+inductive EditBit (prot : List Str) (name : Str) : Str → Prop
+  | metric (x : Str) : extractNamespace x = name → EditBit prot name (pEditMetric ++ x)
+  | pref (x : Str) : extractNamespace x <+: name → EditBit prot name (pEditPrefix ++ x)
+  | namespace (y : Str) : (y ++ [colon]) <+: name → EditBit prot name (pEditNamespace ++ y)
+  | default : Unprotected prot name → EditBit prot name (lit "edit_default")
+
+theorem view_right_traced (cfg : Cfg) (t : Token) (name : Str) (h : ViewRight (grants cfg t) name) :
+    ∃ s, appPrefix cfg.app ++ s ∈ t.bits ∧ ViewBit cfg.prot name s := by
+  rcases h with h | ⟨p, hp, hpre⟩ | ⟨hd, hu⟩
+  · obtain ⟨_, s, hb, hc⟩ := (grant_traced cfg t (.viewMetric name)).mp h
+    have hf := classify_form s _ hc (by simp)
+    cases hf with
+    | viewMetric x => exact ⟨_, hb, .metric x rfl⟩
+  · obtain ⟨_, s, hb, hc⟩ := (grant_traced cfg t (.viewPrefix p)).mp hp
+    have hf := classify_form s _ hc (by simp)
+    cases hf with
+    | viewPrefix x => exact ⟨_, hb, .pref x hpre⟩
+    | viewNamespace y => exact ⟨_, hb, .namespace y hpre⟩
+  · obtain ⟨_, s, hb, hc⟩ := (grant_traced cfg t .viewDefault).mp hd
+    have hf := classify_form s _ hc (by simp)
+    cases hf
+    rw [(grants_fixed cfg t).1] at hu
+    exact ⟨_, hb, .default hu⟩
+
+theorem edit_right_traced (cfg : Cfg) (t : Token) (name : Str) (h : EditRight (grants cfg t) name) :
+    ∃ s, appPrefix cfg.app ++ s ∈ t.bits ∧ EditBit cfg.prot name s := by
+  rcases h with h | ⟨p, hp, hpre⟩ | ⟨hd, hu⟩
+  · obtain ⟨_, s, hb, hc⟩ := (grant_traced cfg t (.editMetric name)).mp h
+    have hf := classify_form s _ hc (by simp)
+    cases hf with
+    | editMetric x => exact ⟨_, hb, .metric x rfl⟩
+  · obtain ⟨_, s, hb, hc⟩ := (grant_traced cfg t (.editPrefix p)).mp hp
+    have hf := classify_form s _ hc (by simp)
+    cases hf with
+    | editPrefix x => exact ⟨_, hb, .pref x hpre⟩
+    | editNamespace y => exact ⟨_, hb, .namespace y hpre⟩
+  · obtain ⟨_, s, hb, hc⟩ := (grant_traced cfg t .editDefault).mp hd
+    have hf := classify_form s _ hc (by simp)
+    cases hf
+    rw [(grants_fixed cfg t).1] at hu
+    exact ⟨_, hb, .default hu⟩
+
+/-- **A metric can be viewed only through a matching metric, prefix or namespace bit or the default bit for an
+    unprotected name** — stated on the token: if the holder of token `t` may view `name`, then `t` carries a bit
+    `app:s` of one of these four forms, and if `name` is a remote-config metric it also carries `app:admin`. -/
+theorem view_only_through_bit (cfg : Cfg) (t : Token) (name : Str) (h : canViewName (grants cfg t) name = true) :
+    (remoteConfig name = true → appPrefix cfg.app ++ lit "admin" ∈ t.bits) ∧
+    ∃ s, appPrefix cfg.app ++ s ∈ t.bits ∧ ViewBit cfg.prot name s := by
+  obtain ⟨h1, h2⟩ := (view_rule _ _).mp h
+  exact ⟨fun hr => (admin_traced cfg t).mp (h1 hr), view_right_traced cfg t name h2⟩
+
+/-- **A non-admin can edit (create, change, rename) only with an edit bit for the old AND for the new name, and never
+    a remote-config metric** — stated on the token. -/
+theorem edit_only_through_bits (cfg : Cfg) (t : Token) (c : Bool) (o n : Meta)
+    (hna : appPrefix cfg.app ++ lit "admin" ∉ t.bits) (h : canEdit (grants cfg t) c o n ≠ .forbidden) :
+    remoteConfig o.name = false ∧ remoteConfig n.name = false ∧
+    (∃ s, appPrefix cfg.app ++ s ∈ t.bits ∧ EditBit cfg.prot o.name s) ∧
+    (∃ s, appPrefix cfg.app ++ s ∈ t.bits ∧ EditBit cfg.prot n.name s) := by
+  have ha : (grants cfg t).admin = false := by
+    cases hh : (grants cfg t).admin with
+    | false => rfl
+    | true => exact absurd ((admin_traced cfg t).mp hh) hna
+  obtain ⟨h1, h2, h3, h4⟩ := edit_needs_both _ c o n ha h
+  exact ⟨h1, h2, edit_right_traced cfg t _ h3, edit_right_traced cfg t _ h4⟩
+
+/-- **Nothing is granted without an accepted token.** Outside local / insecure mode parseAccessToken succeeds only on
+    a decodable token that satisfies `Valid`, and the result is exactly `grants`. -/
+theorem parse_ok_only_if (cfg : Cfg) (now : Nat) (inp : Input) (ai : AI)
+    (hl : cfg.localMode = false) (hi : cfg.insecure = false) (h : parseAccessToken cfg now inp = .ok ai) :
+    ∃ t, inp = .tok t ∧ Valid cfg now t ∧ ai = grants cfg t := by
+  unfold parseAccessToken at h
+  simp only [hl, hi, Bool.or_self, Bool.false_eq_true, if_false] at h
+  cases inp with
+  | empty => cases h
+  | malformed => cases h
+  | tok t =>
+    refine ⟨t, rfl, ?_⟩
+    cases hv : verify cfg now t with
+    | accept =>
+      simp only [hv, ofVerdict, Res.ok.injEq] at h
+      exact ⟨(accept_iff cfg now t).mp hv, h.symm⟩
+    | err m => simp [hv, ofVerdict] at h
+    | panic => simp [hv, ofVerdict] at h
+
+/-- **C30, end to end.** Outside local / insecure mode, whenever parseAccessToken returns an accessInfo `ai`:
+    the input is a token satisfying the acceptance condition; every grant in `ai` is a bit of that token with the
+    application prefix; whatever `ai` may view is covered by a view bit (and `app:admin` for remote-config metrics);
+    and if the token has no `app:admin` bit, every edit that is not refused outright has edit bits for both names,
+    touches no remote-config metric, and, if accepted, leaves the frozen attributes unchanged. -/
+theorem c30_end_to_end (cfg : Cfg) (now : Nat) (inp : Input) (ai : AI)
+    (hl : cfg.localMode = false) (hi : cfg.insecure = false) (h : parseAccessToken cfg now inp = .ok ai) :
+    ∃ t, inp = .tok t ∧ Valid cfg now t ∧
+      (∀ g, Granted ai g ↔ g ≠ .nothing ∧ ∃ s, appPrefix cfg.app ++ s ∈ t.bits ∧ classify s = g) ∧
+      (∀ name, canViewName ai name = true →
+        (remoteConfig name = true → appPrefix cfg.app ++ lit "admin" ∈ t.bits) ∧
+        ∃ s, appPrefix cfg.app ++ s ∈ t.bits ∧ ViewBit cfg.prot name s) ∧
+      (appPrefix cfg.app ++ lit "admin" ∉ t.bits → ∀ c o n,
+        (canEdit ai c o n ≠ .forbidden →
+          remoteConfig o.name = false ∧ remoteConfig n.name = false ∧
+          (∃ s, appPrefix cfg.app ++ s ∈ t.bits ∧ EditBit cfg.prot o.name s) ∧
+          (∃ s, appPrefix cfg.app ++ s ∈ t.bits ∧ EditBit cfg.prot n.name s)) ∧
+        (canEdit ai c o n = .ok → Frozen o n)) := by
+  obtain ⟨t, rfl, hv, rfl⟩ := parse_ok_only_if cfg now inp ai hl hi h
+  refine ⟨t, rfl, hv, grant_traced cfg t, view_only_through_bit cfg t, ?_⟩
+  intro hna c o n
+  refine ⟨edit_only_through_bits cfg t c o n hna, ?_⟩
+  have ha : (grants cfg t).admin = false := by
+    cases hh : (grants cfg t).admin with
+    | false => rfl
+    | true => exact absurd ((admin_traced cfg t).mp hh) hna
+  exact frozen_fields _ c o n ha
+
+
+/-! ## window in raw milliseconds, and the rejection of every one-aspect tampering -/
+
+theorem truncSec_le (x : Nat) : truncSec x ≤ x ∧ x < truncSec x + 1000 := by
+  unfold truncSec; omega
+
+/-- an accepted token is inside its validity window: not later than 5 s after `exp`; `iat` / `nbf` are NumericDates
+    (whole seconds), so they are at most 5 s (+ the sub-second fraction golang-jwt drops) resp. the fraction ahead -/
+theorem accept_window (cfg : Cfg) (now : Nat) (t : Token) (h : verify cfg now t = .accept) :
+    ∃ e i, t.exp = some e ∧ t.iat = some i ∧ now < e + 5000 ∧ i < now + 6000 ∧ ∀ n, t.nbf = some n → n < now + 1000 := by
+  obtain ⟨_, _, _, _, _, ⟨e, he, h1⟩, ⟨i, hi, h2⟩, h3⟩ := (accept_iff cfg now t).mp h
+  refine ⟨e, i, he, hi, ?_, ?_, ?_⟩
+  · have := truncSec_le e; rw [gen_window] at h1; omega
+  · have := truncSec_le i; rw [gen_window] at h2; omega
+  · intro n hn; have := truncSec_le n; have := h3 n hn; omega
+
+/-- **Every token outside the property's acceptance set is rejected** (wrong or missing alg, wrong kind header, kid
+    missing / not a string / naming no configured key, signature not valid under the named key, foreign issuer, no
+    user, no or passed expiry, issue time missing or in the future, not-before in the future). -/
+theorem tampered_rejected (cfg : Cfg) (now : Nat) (t : Token)
+    (h : t.alg ≠ .str C30.algEdDSA ∨ t.kind ≠ .str C30.kindToken ∨
+         (∀ k, t.kid = .str k → k ∉ cfg.keys) ∨ (∀ k, t.kid = .str k → k ∉ t.sigOk) ∨
+         t.iss ≠ C30.issuer ∨ t.user = [] ∨
+         t.exp = none ∨ (∃ e, t.exp = some e ∧ e + 5000 ≤ now) ∨
+         t.iat = none ∨ (∃ i, t.iat = some i ∧ now + 6000 ≤ i) ∨
+         (∃ n, t.nbf = some n ∧ now + 1000 ≤ n)) :
+    verify cfg now t ≠ .accept := by
+  intro hv
+  obtain ⟨e, i, he, hi, h1, h2, h3⟩ := accept_window cfg now t hv
+  obtain ⟨ha, hk, ⟨k, hk1, hk2, hk3⟩, hiss, hu, _⟩ := (accept_iff cfg now t).mp hv
+  rcases h with h | h | h | h | h | h | h | ⟨e', he', h⟩ | h | ⟨i', hi', h⟩ | ⟨n, hn, h⟩
+  · exact h ha
+  · exact h hk
+  · exact h k hk1 hk2
+  · exact h k hk1 hk3
+  · exact h hiss
+  · exact hu h
+  · rw [h] at he; cases he
+  · rw [he] at he'; cases he'; omega
+  · rw [h] at hi; cases hi
+  · rw [hi] at hi'; cases hi'; omega
+  · have := h3 n hn; omega
+
+/-! ## non-vacuity: concrete tokens, bits and metric pairs (all by kernel evaluation of the model) -/
+
+def kA : Str := lit "key-a"
+def kB : Str := lit "key-b"
+def cfg0 : Cfg := { app := lit "statshouse", keys := [kA, kB], prot := [lit "foo_"], localMode := false, insecure := false }
+def tok0 : Token :=
+  { alg := .str (lit "EdDSA"), kind := .str (lit "token"), kid := .str kA, sigOk := [kA], iss := lit "vkuth", user := lit "u",
+    exp := some 1000000, iat := some 900000, nbf := none, service := false,
+    bits := [lit "statshouse:view_default", lit "other:admin", lit "admin", lit "statshouse2:admin",
+             lit "statshouse:edit_prefix.ns@foo_", lit "statshouse:view_metric.foo_bar", lit "statshouse:edit_namespace.team"] }
+
+-- a valid token is accepted; the window boundaries are where the code puts them
+example : verify cfg0 950000 tok0 = .accept := by decide
+example : verify cfg0 1004999 tok0 = .accept ∧ verify cfg0 1005000 tok0 = .err 16 := by decide
+example : verify cfg0 895000 tok0 = .accept ∧ verify cfg0 894999 tok0 = .err 32 := by decide
+example : verify cfg0 950000 { tok0 with nbf := some 950000 } = .accept ∧
+          verify cfg0 950000 { tok0 with nbf := some 951000 } = .err 128 := by decide
+-- one-aspect tampering
+example : verify cfg0 950000 { tok0 with alg := .str (lit "HS256") } = .err 4 := by decide
+example : verify cfg0 950000 { tok0 with alg := .str (lit "none") } = .err 4 := by decide
+example : verify cfg0 950000 { tok0 with alg := .str (lit "XX") } = .err 2 := by decide
+example : verify cfg0 950000 { tok0 with alg := .absent } = .err 2 := by decide
+example : verify cfg0 950000 { tok0 with kind := .str (lit "cookie") } = .err 2 := by decide
+example : verify cfg0 950000 { tok0 with kind := .absent } = .err 2 := by decide
+example : verify cfg0 950000 { tok0 with kid := .str kB } = .err 4 := by decide            -- signed by A, names B
+example : verify cfg0 950000 { tok0 with kid := .str (lit "key-c"), sigOk := [] } = .err 2 := by decide
+example : verify cfg0 950000 { tok0 with kid := .other } = .err 2 := by decide
+example : verify cfg0 950000 { tok0 with sigOk := [] } = .err 4 := by decide
+example : verify cfg0 950000 { tok0 with iss := lit "vkuth2" } = .err 512 := by decide
+example : verify cfg0 950000 { tok0 with user := [] } = .err 512 := by decide
+example : verify cfg0 950000 { tok0 with iat := none } = .err 32 := by decide
+example : verify cfg0 950000 { tok0 with exp := none } = .panic := by decide
+example : verify cfg0 2000000 { tok0 with iss := [], iat := none } = .err (16 + 32 + 512) := by decide
+-- the hypotheses of c30_end_to_end are satisfiable, local mode ignores the token
+example : parseAccessToken cfg0 950000 (.tok tok0) = .ok (grants cfg0 tok0) := by decide
+example : parseAccessToken cfg0 950000 .empty = .err 0 ∧ parseAccessToken cfg0 950000 .malformed = .err 1 := by decide
+example : parseAccessToken { cfg0 with insecure := true } 0 .malformed = .ok (insecureAI { cfg0 with insecure := true }) := by decide
+-- only the application's bits count
+example : (grants cfg0 tok0).admin = false ∧ (grants cfg0 tok0).viewDefault = true ∧ (grants cfg0 tok0).editDefault = false ∧
+          (grants cfg0 tok0).editPrefix = [lit "team:", lit "ns:foo_"] ∧ (grants cfg0 tok0).viewMetric = [lit "foo_bar"] ∧
+          (grants cfg0 tok0).viewPrefix = [] := by decide
+-- view: metric bit beats protection, default does not, remote config is admin only
+example : canViewName (grants cfg0 tok0) (lit "foo_bar") = true ∧ canViewName (grants cfg0 tok0) (lit "foo_baz") = false ∧
+          canViewName (grants cfg0 tok0) (lit "abc") = true ∧
+          canViewName (grants cfg0 tok0) (lit "statshouse_api_remote_config") = false := by decide
+example : canViewName (grants cfg0 { tok0 with bits := [lit "statshouse:admin", lit "statshouse:view_default"] })
+            (lit "statshouse_api_remote_config") = true := by decide
+example : canViewName (grants cfg0 { tok0 with bits := [lit "statshouse:admin"] }) (lit "abc") = false := by decide
+
+def m0 : Meta :=
+  { name := lit "ns:foo_a", weightQ := 0, preKeyFrom := 0, preKeyOnly := false, skipMaxHost := false, skipMinHost := true,
+    skipSumSquare := false, strategy := [], shardNum := 0, fixedKey := 0, fixedKey2 := 0, fixedKey2Ts := 0, rawTags := [false, true] }
+
+-- edit: rights on both names, frozen attributes
+example : canEdit (grants cfg0 tok0) false m0 m0 = .ok := by decide
+example : canEdit (grants cfg0 tok0) false m0 { m0 with name := lit "ns:foo_b", weightQ := 4 } = .ok := by decide
+example : canEdit (grants cfg0 tok0) false m0 { m0 with name := lit "team:x" } = .ok := by decide
+example : canEdit (grants cfg0 tok0) false m0 { m0 with name := lit "abc" } = .forbidden := by decide
+example : canEdit (grants cfg0 tok0) false { m0 with name := lit "abc" } m0 = .forbidden := by decide
+example : canEdit (grants cfg0 tok0) false m0 { m0 with weightQ := 8 } = .weight := by decide
+example : canEdit (grants cfg0 tok0) false { m0 with weightQ := 4 } { m0 with weightQ := 0 } = .weight := by decide
+example : canEdit (grants cfg0 tok0) false m0 { m0 with preKeyFrom := 1 } = .presort := by decide
+example : canEdit (grants cfg0 tok0) false m0 { m0 with preKeyOnly := true } = .presortOnly := by decide
+example : canEdit (grants cfg0 tok0) false m0 { m0 with skipMinHost := false, skipSumSquare := true } = .skips := by decide
+example : canEdit (grants cfg0 tok0) false m0 { m0 with strategy := lit "fixed_shard" } = .strategy := by decide
+example : canEdit (grants cfg0 tok0) false m0 { m0 with fixedKey2Ts := 1 } = .shard := by decide
+example : canEdit (grants cfg0 tok0) false m0 { m0 with rawTags := [false] } = .raw := by decide
+example : canEdit (grants cfg0 tok0) false m0 { m0 with rawTags := [false, true, false] } = .ok := by decide
+example : canEdit (grants cfg0 tok0) false m0 { m0 with rawTags := [false, true, true] } = .raw := by decide
+example : canEdit (grants cfg0 { tok0 with bits := [lit "statshouse:admin"] }) false m0
+            { m0 with name := lit "statshouse_journal_dump", weightQ := 40, rawTags := [] } = .ok := by decide
+example : canEdit (grants cfg0 { tok0 with bits := [lit "statshouse:edit_default"] }) true
+            { m0 with name := lit "statshouse_journal_dump" } { m0 with name := lit "statshouse_journal_dump" } = .forbidden := by decide
+
 end SH.Props.C30
